@@ -7,6 +7,7 @@ import (
 	"sort"
 	"strings"
 	"sync/atomic"
+	_ "verif/h/duoc"
 
 	"github.com/biogo/biogo/align/pals"
 	"verif/h/enum"
